@@ -29,6 +29,8 @@ BOUNDS = {
     "thorough": "all 191x190 ordered quantity-type pairs (first unit of each type) with one operation kind each (round-robin), plus 3000 seeded pairs over "
                 "all units x all kinds, plus 1500 derived pairs",
 }
+BOUNDS_ALSO = '; also: derived operands asked for / copied into / converted to a table unit of another dimension (incl. one fitting only the leading factor); conversions to and from the unit of the Unknown type; EVERY pair of unit symbols of different quantity types that differ only in case x 7 routes; a refused AddUnit of the foreign unit just before the checked call'
+BOUNDS = {k_: v_ + BOUNDS_ALSO for k_, v_ in BOUNDS.items()}
 ASSUMPTIONS = ["A-FP", "'different dimension' is read as barril reads it: different quantity types for table units, different exponent vectors for derived operands",
                "the 'Unknown' quantity type is exempt by design and not asserted either way", "units/type error = UnitsError (incl. InvalidUnitError, "
                "InvalidOperationError, InvalidQuantityTypeError, ComposedUnitError), TypeError or ValueError"]
